@@ -122,17 +122,21 @@ pub fn generate(ctx: &mut GenCtx) {
         let gsets: [&[Option<&str>]; 3] = [&[Some("tag:g1"), Some("tag:g2")], &[None, Some(G0)], &[None, Some("tag:g1"), Some("tag:g2")]];
         for k in 2..=(if th { 3 } else { 2 }) {
             for (gi, gs) in gsets.iter().enumerate() {
-                if gi == 2 && !th {
+                // 3 siblings x 2 graphs = related lists of 6 = 720 permutations per hub: one twist, few orders
+                if (gi == 2 && !th) || (k == 3 && gi != 0) {
                     continue;
                 }
                 for twist in 0..=3 {
                     for outward in [true, false] {
-                        if !th && !outward && twist != 1 {
+                        if (!th && !outward && twist != 1) || (k == 3 && !(twist == 1 && outward)) {
                             continue;
                         }
                         let base = multi_edge_twins(k, gs, twist, outward, P0);
-                        let shuffles = if th { 3 } else { 1 };
+                        let shuffles = if k == 3 { 0 } else if th { 3 } else { 1 };
                         for (name, v) in enumeration_orders(&base, &mut ctx.rng, shuffles) {
+                            if k == 3 && name != "grouped" && name != "by_graph" {
+                                continue;
+                            }
                             let r = Req { hash: "sha256".into(), df: 1.0, pl: 6, cont: "ord".into(), seed: ctx.rng.next() % 1_000_000_007, quads: v };
                             ctx.stats.bump("family.multi_edge_twins");
                             ctx.stats.bump(&format!("enumeration.{}", name));
@@ -274,7 +278,11 @@ pub fn exec(line: &str) -> String {
         return r;
     }
     let Some(req) = Req::parse(line) else { return "bad-op".into() };
+    let t0 = std::time::Instant::now();
     let mut o = run_impl(&req.quads, &req.hash, req.df, req.pl, &req.cont);
+    // expensive datasets (hundreds of permutations per node) get a reduced metamorphic fan-out: the
+    // reply fields compared with the model do not depend on it
+    let slow = t0.elapsed() > std::time::Duration::from_millis(150);
     self_checks(&req.quads, &mut o);
     let mut reply = base_reply(&req, &o);
     // metamorphic part
@@ -284,7 +292,7 @@ pub fn exec(line: &str) -> String {
     let mut flips = 0;
     let mut order_runs = 0;
     if o.err.as_deref() != Some("unsupported") && o.err.as_deref() != Some("panic") {
-        for k in 0..3 {
+        for k in 0..(if slow { 1 } else { 3 }) {
             let mut v = relabel_random(&req.quads, &mut rng);
             shuffle(&mut v, &mut rng);
             let cont = CONTAINERS[(rng.below(CONTAINERS.len()) + k) % CONTAINERS.len()];
@@ -306,7 +314,10 @@ pub fn exec(line: &str) -> String {
         }
         // the same quads under other enumeration orders (order-preserving container, same labels)
         if let Some(a) = &o.out {
-            for (name, v) in enumeration_orders(&req.quads, &mut rng, 2) {
+            for (name, v) in enumeration_orders(&req.quads, &mut rng, if slow { 0 } else { 2 }) {
+                if slow && name != "by_graph" && name != "mixed" {
+                    continue;
+                }
                 let o2 = run_impl(&v, &req.hash, req.df, req.pl, "ord");
                 order_runs += 1;
                 match &o2.out {
@@ -320,7 +331,7 @@ pub fn exec(line: &str) -> String {
             }
         }
         if let Some(a) = &o.out {
-            for _ in 0..3 {
+            for _ in 0..(if slow { 1 } else { 3 }) {
                 let Some(v) = one_edit(&req.quads, &mut rng) else { continue };
                 let mut budget = 200_000usize;
                 let Some(iso) = brute_iso(&req.quads, &v, &mut budget) else { continue };
